@@ -501,5 +501,6 @@ func init() {
 var stepKinds = map[string]map[string]bool{
 	"C01": {eng.KState: true, eng.KIff: true, eng.KFlags: true, eng.KMemImg: true, eng.KPortOut: true, eng.KInvalid: true},
 	"C05": {eng.KAccess: true},
+	"C06": {eng.KIff: true, eng.KIntr: true},
 	"C14": {eng.KRefresh: true},
 }
